@@ -9,6 +9,7 @@ import (
 	"crypto/x509"
 	"encoding/asn1"
 	"fmt"
+	"math/big"
 	"strings"
 	"time"
 
@@ -90,6 +91,9 @@ func baseDesc(n, mix int, ts bool) *desc {
 			s = pki.CASpec(k, fmt.Sprintf("ch-%d-ca%d", n, i))
 		}
 		s.NotBefore, s.NotAfter = vFrom, vTo
+		// every variant of a position keeps the serial of the conforming
+		// certificate there: look-alikes share issuer name AND serial with it
+		s.Serial = big.NewInt(int64(700000 + n*1000 + (mix%len(keyMixes))*10 + i))
 		d.specs = append(d.specs, s)
 	}
 	return d
@@ -165,7 +169,8 @@ func buildCatalogue() []item {
 		n string
 		k x509.KeyUsage
 	}{{"keyEncipherment", x509.KeyUsageKeyEncipherment}, {"dataEncipherment", x509.KeyUsageDataEncipherment}, {"keyAgreement", x509.KeyUsageKeyAgreement},
-		{"certSign", x509.KeyUsageCertSign}, {"crlSign", x509.KeyUsageCRLSign}, {"encipherOnly", x509.KeyUsageKeyAgreement | x509.KeyUsageEncipherOnly}, {"decipherOnly", x509.KeyUsageKeyAgreement | x509.KeyUsageDecipherOnly}} {
+		{"certSign", x509.KeyUsageCertSign}, {"crlSign", x509.KeyUsageCRLSign}, {"encipherOnly", x509.KeyUsageKeyAgreement | x509.KeyUsageEncipherOnly}, {"decipherOnly", x509.KeyUsageKeyAgreement | x509.KeyUsageDecipherOnly},
+		{"encipherOnly-alone", x509.KeyUsageEncipherOnly}, {"decipherOnly-alone", x509.KeyUsageDecipherOnly}} {
 		b := b
 		add("leaf-ku-"+b.n, false, leafOnly, func(d *desc, pos int) { d.specs[0].KU = x509.KeyUsageDigitalSignature | b.k })
 	}
@@ -301,6 +306,8 @@ func (c *Case) signingTime(certs []*x509.Certificate) *time.Time {
 		t = cert.NotBefore.Add(-time.Second)
 	case "after":
 		t = cert.NotAfter.Add(time.Second)
+	case "zero":
+		t = time.Time{} // supplied, and the zero instant: outside every validity period
 	default:
 		t = time.Date(2020, 6, 1, 0, 0, 0, 0, time.UTC)
 	}
@@ -474,7 +481,7 @@ func run(r *core.Run, ts bool) int {
 				out = append(out, [2]any{i, k})
 			}
 		}
-		out = append(out, [2]any{0, "mid"})
+		out = append(out, [2]any{0, "mid"}, [2]any{0, "zero"})
 		return out
 	}
 	for n := 1; n <= 5; n++ {
